@@ -19,6 +19,10 @@ func (s *ModelServer) UpdateDemand(_ context.Context, request *UpdateDemandReque
 
 func (s *ModelServer) CreateMode(_ context.Context, request *CreateModeRequest) (*traits.ElectricMode, error) {
 	// start by validating things
+	if request.GetMode() == nil {
+		// Model.CreateMode reads the fields of the mode it is given: a request without one is the caller's mistake
+		return nil, status.Error(codes.InvalidArgument, "mode is required")
+	}
 	if request.GetMode().GetId() != "" {
 		return nil, status.Errorf(codes.InvalidArgument, "id '%v' should be empty", request.GetMode().GetId())
 	}
